@@ -7,7 +7,7 @@ from hypothesis import strategies as st
 
 from vlib import gen, ref, obs
 from vlib import expr as E
-from vlib.build import build
+from vlib.build import build, apply_value
 from vlib.core import Fail, HarnessInconclusive
 from vlib.nlp import NLP, Rows, diff_rows, close, time_like_vars, random_points, summarize_diff, DMa
 from props import c04, c05, c14
@@ -45,10 +45,17 @@ def strategy_(draw):
         b = gen.leaves_of([d for d in sub["states"]])[0]
         sp["coupling"] = [{"lhs": [["-", ["at_tf", a, "main"], ["at_t0", b, "s1"]]], "rel": "==", "rhs": [E.C(0.0)]}]
     when = draw(st.sampled_from(["before", "after_query", "after_solve"]))
+    # parameter values assigned again just before saving (after the query/solve when there is one)
+    late = []
+    for d in sp["params"]:
+        if not d["name"].startswith("hp_") and draw(st.integers(0, 2)) == 0:
+            g = d.get("grid", "")
+            ncol = d["cols"] * (1 if g == "" else (sp["method"]["N"] if g == "control" else sp["method"]["N"] + 1))
+            late.append([d["name"], [[draw(gen.small()) for _ in range(ncol)] for _ in range(d["rows"])]])
     # solver settings in both spellings CasADi accepts: dotted keys or a nested plugin dictionary
     it = draw(st.integers(1, 3))
     sp["solver"] = ["ipopt", draw(st.sampled_from([{"ipopt.max_iter": it}, {"ipopt": {"max_iter": it}}, {"ipopt": {"max_iter": it}, "expand": True}, {"ipopt.max_iter": it, "expand": True}]))]
-    return {"spec": sp, "when": when, "rng": draw(st.integers(0, 2**31 - 1))}
+    return {"spec": sp, "when": when, "late": late, "rng": draw(st.integers(0, 2**31 - 1))}
 
 
 def strategy(tier):
@@ -57,7 +64,7 @@ def strategy(tier):
 
 def feature_labels(case):
     sp = case["spec"]
-    labs = ["method:" + sp["method"]["cls"], "grid:" + sp["method"]["grid"]["cls"], "save:" + case["when"], "solver-options:" + ("nested" if isinstance(sp.get("solver", [0, {}])[1].get("ipopt"), dict) else "dotted")]
+    labs = (["set_value after transcription, before save"] if case.get("late") and case["when"] != "before" else []) + ["method:" + sp["method"]["cls"], "grid:" + sp["method"]["grid"]["cls"], "save:" + case["when"], "solver-options:" + ("nested" if isinstance(sp.get("solver", [0, {}])[1].get("ipopt"), dict) else "dotted")]
     if sp["T"][0] == "free" or sp["t0"][0] == "free":
         labs.append("free-time")
     if sp["T"][0] == "par" or sp["t0"][0] == "par":
@@ -99,7 +106,12 @@ def check(case, ctx):
     B = build(sp)
     ocp = B.ocp
     fails = []
-    ref_build = build(sp)          # an untouched twin: what the original must still be after save
+    spR = copy.deepcopy(sp)
+    for name, val in case.get("late", []):
+        for d in spR["params"]:
+            if d["name"] == name:
+                d["value"] = val
+    ref_build = build(spR)          # an untouched twin written with the final values: what the original must still be after save
     nR = NLP(ref_build.ocp)
     if case["when"] == "after_query":
         ocp.jacobian()
@@ -108,6 +120,8 @@ def check(case, ctx):
             ocp.solve_limited()
         except Exception as ex:
             raise HarnessInconclusive("limited solve failed: %s" % str(ex)[:60])
+    for name, val in case.get("late", []):
+        apply_value(B, ocp, name, val)
     fn = os.path.join(os.getcwd(), "case.rockit")
     ocp.save(fn)
     from rockit import Ocp
@@ -182,7 +196,7 @@ def check(case, ctx):
     if fails:
         return fails
     # the loaded OCP is a usable OCP: its own symbols are recognised and edits through the accessors act like on a fresh twin
-    twin2 = build(sp).ocp
+    twin2 = build(spR).ocp
     for so, sl in [(twin2, ocp3)] + list(zip(twin2._stages, ocp3._stages)):
         for acc in ("states", "controls", "algebraics"):
             for sym in getattr(sl, acc):
